@@ -1137,7 +1137,11 @@ impl<'a> Lexer<'a> {
                         let value = i64::from_str_radix(&num_str, 16).unwrap_or(0);
                         return TokenKind::BigInt(value.to_string());
                     }
-                    return TokenKind::Number(i64::from_str_radix(&num_str, 16).unwrap_or(0) as f64);
+                    return match crate::value::radix_digits_to_number(&num_str, 16) {
+                        Some(value) => TokenKind::Number(value),
+                        // `0x` with no digits after it
+                        None => TokenKind::Invalid('0'),
+                    };
                 }
                 Some('o' | 'O') => {
                     // Octal
@@ -1158,7 +1162,11 @@ impl<'a> Lexer<'a> {
                         let value = i64::from_str_radix(&num_str, 8).unwrap_or(0);
                         return TokenKind::BigInt(value.to_string());
                     }
-                    return TokenKind::Number(i64::from_str_radix(&num_str, 8).unwrap_or(0) as f64);
+                    return match crate::value::radix_digits_to_number(&num_str, 8) {
+                        Some(value) => TokenKind::Number(value),
+                        // `0x` with no digits after it
+                        None => TokenKind::Invalid('0'),
+                    };
                 }
                 Some('b' | 'B') => {
                     // Binary
@@ -1179,7 +1187,11 @@ impl<'a> Lexer<'a> {
                         let value = i64::from_str_radix(&num_str, 2).unwrap_or(0);
                         return TokenKind::BigInt(value.to_string());
                     }
-                    return TokenKind::Number(i64::from_str_radix(&num_str, 2).unwrap_or(0) as f64);
+                    return match crate::value::radix_digits_to_number(&num_str, 2) {
+                        Some(value) => TokenKind::Number(value),
+                        // `0x` with no digits after it
+                        None => TokenKind::Invalid('0'),
+                    };
                 }
                 Some('0'..='7') => {
                     // Legacy octal literal (e.g., 0777) - not allowed in strict mode
